@@ -38,12 +38,18 @@ def check_built(rec: Rec, cc, how, args, obj_fn):
     return "ok"
 
 
-def check_rebuild(rec: Rec, cc, bban):
-    """(b) components read off a nationally valid IBAN rebuild the same BBAN (outside filler positions)."""
+def check_rebuild(rec: Rec, cc, bban, only_if_accepted=False):
+    """(b) components read off a nationally valid IBAN rebuild the same BBAN (outside filler positions).
+
+    only_if_accepted: the base is whatever the LIBRARY accepts nationally (a text it rejects is not a base; whether the
+    verdict itself is right is C06's question) - this is where "computing and validating agree" is decided for values of
+    the check field that the computation never produces."""
     from ..lib import BBAN, IBAN, SchwiftyException, frame_of
     o, g = oracle(), gen()
     text = g.iban_of(cc, bban)
     inp = {"cc": cc, "bban": bban}
+    if only_if_accepted:
+        inp["only_if_accepted"] = True
     if cc == "DE":
         # German national validity depends on the bank: a random bank code is almost always unlisted (accepted); when it does
         # hit a listed bank, the account has to satisfy that bank's method to be a nationally valid base (precondition of (b))
@@ -54,6 +60,13 @@ def check_rebuild(rec: Rec, cc, bban):
         if m is not None and (m not in ode.METHODS or ode.ref(m, bban[8:]) is not True):
             rec.excluded["German base hit a listed bank whose method rejects (or is undecided about) the account: not a nationally valid base"] += 1
             return
+    if only_if_accepted:
+        try:
+            IBAN(text, validate_bban=True)
+        except SchwiftyException:
+            return "rejected"
+        except Exception:  # noqa: BLE001 - an escape here is C05's / C06's finding; not a base
+            return "rejected"
     try:
         iban = IBAN(text, validate_bban=True)
         comps = {k: getattr(iban, k) for k in COMPONENTS}
@@ -83,7 +96,7 @@ def replay(rec, case):
     from ..lib import IBAN
     i = case["input"]
     if "bban" in i:
-        check_rebuild(rec, i["cc"], i["bban"])
+        check_rebuild(rec, i["cc"], i["bban"], only_if_accepted=bool(i.get("only_if_accepted")))
     elif i["how"].endswith("hostile-registry"):
         hostile_registry(rec, case.get("seed", 1), case.get("tier", "quick"))
     elif i["how"].endswith("|country-code-spelling"):
@@ -211,6 +224,43 @@ def shard_rebuild(arg):
     return rec
 
 
+def shard_checkfield(arg):
+    """Every value of the national check field over bases whose computed value lies at the ends of its range (and some in
+    the middle): whatever the library accepts nationally must be reproduced by rebuilding from its components."""
+    cc, seed, tier = arg
+    import random
+    rng = random.Random(f"{seed}:C09f:{cc}")
+    rec = Rec()
+    g, o = gen(), oracle()
+    pos = o.positions(cc)
+    fld = onat.check_field(pos)
+    if fld is None or onat.missing_fields(cc, pos):
+        return rec
+    a, e = fld
+    cl = g.classes(cc)
+    width = e - a
+    values = [f"{i:0{width}d}" for i in range(10 ** width)] if cl[a] == "n" else list("ABCDEFGHIJKLMNOPQRSTUVWXYZ")
+    by_value = {}
+    for k in range(1500 if tier == "quick" else 20000):
+        b = g.natvalid_bban(cc, rng, "random" if k % 3 else "letters")
+        if b is not None:
+            by_value.setdefault(b[a:e], []).append(b)
+    seen = sorted(by_value)
+    ends = seen[:3] + seen[-3:]
+    middle = rng.sample(seen, min(len(seen), 6 if tier == "quick" else 40))
+    per = 2 if tier == "quick" else 6
+    for v0 in dict.fromkeys(ends + middle):
+        for b in by_value[v0][:per]:
+            for v in values:
+                r = check_rebuild(rec, cc, b[:a] + v + b[e:], only_if_accepted=True)
+                edge = v0 in ends
+                rec.case("checkfield-value-accepted" if r != "rejected" else "checkfield-value-rejected",
+                         (cc, b, v) if (edge or r != "rejected") else None,
+                         {"cc": cc, "bban": b[:a] + v + b[e:], "only_if_accepted": True} if (v == v0 and b is by_value[v0][0]) else None)
+            rec.case("checkfield-base-at-end-of-range" if v0 in ends else "checkfield-base", (cc, b))
+    return rec
+
+
 def hostile_registry(rec: Rec, seed, tier):
     """Registry-based random draws in a copy of the package whose bank registry lists, for the countries with a national
     algorithm, codes that do NOT conform nationally (random digits where a listed code embeds a check digit, e.g. Poland's
@@ -274,10 +324,11 @@ def run(ctx):
     ctx.pmap(shard_field, [(cc, ctx.seed, ctx.tier) for cc in onat.FIELD])
     with_pos = [cc for cc in o.countries() if o.positions(cc)]
     ctx.pmap(shard_rebuild, [(cc, ctx.seed, ctx.tier) for cc in with_pos])
+    ctx.pmap(shard_checkfield, [(cc, ctx.seed, ctx.tier) for cc in onat.FIELD])
     ctx.extra["generate_success"] = {cc: ctx.rec.classes.get(f"generate-success-{cc}", 0) for cc in onat.FIELD}
     ctx.extra["random_success"] = {cc: ctx.rec.classes.get(f"random-success-{cc}", 0) for cc in onat.FIELD}
     from ._configs import stage as _config_stage
     _config_stage(ctx, ['national', 'generate'])
     hostile_registry(ctx.rec, ctx.seed, ctx.tier)
-    ctx.require_classes("hostile-registry-draw", "generate-component-omitted", "cc-spelling", "from_components-ncd-ok", "generate-ok", "random-ok", "rebuild-rich", "rebuild",
+    ctx.require_classes("hostile-registry-draw", "generate-component-omitted", "cc-spelling", "from_components-ncd-ok", "checkfield-value-accepted", "checkfield-value-rejected", "checkfield-base-at-end-of-range", "generate-ok", "random-ok", "rebuild-rich", "rebuild",
                         *[f"random-success-{cc}" for cc in onat.FIELD])
